@@ -41,7 +41,9 @@ type c15Req struct {
 	unlock    command.Unlock
 	released  bool
 	hold      chan struct{} // non-nil: park at lock.queued until closed
+	holdEnq   chan struct{} // non-nil: park at lock.enqueue (between the failed attempt and queueing) until closed
 	atGate    bool
+	run       *c15Run
 	mu        sync.Mutex
 }
 
@@ -52,10 +54,27 @@ func (r *c15Req) Yield(ctx context.Context, point string) {
 		r.mu.Unlock()
 		<-r.hold
 	}
+	if point == "lock.enqueue" && r.holdEnq != nil {
+		r.mu.Lock()
+		r.atGate = true
+		r.mu.Unlock()
+		<-r.holdEnq
+	}
 }
-func (r *c15Req) Await(context.Context, string, <-chan struct{})  {}
-func (r *c15Req) BeforeLock(context.Context, string, *sync.Mutex) {}
-func (r *c15Req) Expose(context.Context, string, any)             {}
+func (r *c15Req) Await(context.Context, string, <-chan struct{}) {}
+
+// BeforeLock keeps a contender away from the locker's mutex while the harness holds another
+// request inside it (a goroutine blocked in Mutex.Lock is not durably blocked for synctest).
+func (r *c15Req) BeforeLock(ctx context.Context, name string, mu *sync.Mutex) {
+	for {
+		if mu.TryLock() {
+			mu.Unlock()
+			return
+		}
+		<-r.run.retryChan()
+	}
+}
+func (r *c15Req) Expose(context.Context, string, any) {}
 
 func (r *c15Req) open() {
 	select {
@@ -88,17 +107,46 @@ func conflicts(a, b *c15Req) bool {
 }
 
 type c15Run struct {
-	locker *command.DefaultLocker
-	reqs   []*c15Req
-	log    []string
+	locker   *command.DefaultLocker
+	reqs     []*c15Req
+	log      []string
+	rmu      sync.Mutex
+	retry    chan struct{}
+	enqRaces int
 	// statistics
 	queued, cancels, races, raceWonByCancel int
 }
 
+func (r *c15Run) retryChan() chan struct{} {
+	r.rmu.Lock()
+	defer r.rmu.Unlock()
+	if r.retry == nil {
+		r.retry = make(chan struct{})
+	}
+	return r.retry
+}
+
+// kick lets every contender parked in BeforeLock look at the mutex again.
+func (r *c15Run) kick() {
+	r.rmu.Lock()
+	if r.retry != nil {
+		close(r.retry)
+		r.retry = nil
+	}
+	r.rmu.Unlock()
+}
+
 func (r *c15Run) start(read, write []string, hold, precancel bool) *c15Req {
-	q := &c15Req{id: len(r.reqs), read: read, write: write}
+	return r.startMode(read, write, hold, false, precancel)
+}
+
+func (r *c15Run) startMode(read, write []string, hold, holdEnq, precancel bool) *c15Req {
+	q := &c15Req{id: len(r.reqs), read: read, write: write, run: r}
 	if hold {
 		q.hold = make(chan struct{})
+	}
+	if holdEnq {
+		q.holdEnq = make(chan struct{})
 	}
 	base := logging.ContextWithLogger(context.Background(), nopLog{})
 	q.ctx, q.cancel = context.WithCancel(hookctx.With(base, q))
@@ -231,7 +279,18 @@ func c15Execute(actions []c15Action) (run *c15Run, sig, msg string) {
 					close(q.hold)
 				}
 			}
+			if q.holdEnq != nil {
+				select {
+				case <-q.holdEnq:
+				default:
+					close(q.holdEnq)
+				}
+			}
 			q.cancel()
+		}
+		for i := 0; i < 4; i++ {
+			synctest.Wait()
+			r.kick()
 		}
 		synctest.Wait()
 	}()
@@ -263,6 +322,50 @@ func c15Execute(actions []c15Action) (run *c15Run, sig, msg string) {
 				synctest.Wait()
 				r.log = append(r.log, fmt.Sprintf("cancel #%d -> %s", w.id, r.state(w)))
 			}
+		case "enqueuerace":
+			// hold a request between its failed attempt and its queueing, release its blocker
+			// meanwhile, then let it queue: it must still be granted
+			hs := r.holders()
+			if len(hs) == 0 {
+				continue
+			}
+			q := r.startMode(a.Read, a.Write, false, true, false)
+			if r.state(q) != "parked-at-queue-gate" {
+				close(q.holdEnq)
+				synctest.Wait()
+				break
+			}
+			r.enqRaces++
+			relCtx := hookctx.With(logging.ContextWithLogger(context.Background(), nopLog{}), q)
+			var released []*c15Req
+			for _, h := range r.holders() {
+				if conflicts(h, q) {
+					h := h
+					released = append(released, h)
+					go func() {
+						h.unlock(relCtx)
+						h.mu.Lock()
+						h.released = true
+						h.mu.Unlock()
+					}()
+				}
+			}
+			synctest.Wait()
+			close(q.holdEnq) // the request queues itself now
+			synctest.Wait()
+			q.mu.Lock()
+			q.atGate = false
+			q.mu.Unlock()
+			for i := 0; i < 3; i++ {
+				r.kick() // releases that had to wait for the locker's mutex go on
+				synctest.Wait()
+			}
+			for _, h := range released {
+				if st := r.state(h); st != "released" {
+					return r, "C15/release-stuck", fmt.Sprintf("the release of request #%d did not complete", h.id)
+				}
+			}
+			r.log = append(r.log, fmt.Sprintf("enqueuerace #%d (blockers released while it was between attempt and queue) -> %s", q.id, r.state(q)))
 		case "grantrace", "cancelqueued":
 			// a request that must queue: conflict with every current holder is not required, one is enough
 			hs := r.holders()
@@ -355,7 +458,7 @@ func c15GenActions(t *rapid.T) []c15Action {
 	n := rapid.IntRange(3, 24).Draw(t, "nActions")
 	out := make([]c15Action, n)
 	for i := range out {
-		k := rapid.SampledFrom([]string{"request", "request", "request", "request", "release", "release", "release", "cancel", "grantrace", "grantrace", "cancelqueued", "precancelled"}).Draw(t, "kind")
+		k := rapid.SampledFrom([]string{"request", "request", "request", "request", "release", "release", "release", "cancel", "grantrace", "grantrace", "cancelqueued", "precancelled", "enqueuerace", "enqueuerace"}).Draw(t, "kind")
 		a := c15Action{Kind: k, Pick: rapid.IntRange(0, 7).Draw(t, "pick")}
 		if k != "release" && k != "cancel" {
 			a.Read, a.Write = set("read"), set("write")
@@ -370,7 +473,7 @@ func c15GenActions(t *rapid.T) []c15Action {
 
 func TestC15(t *testing.T) {
 	c := evid.New("C15")
-	c.Rule = "action lists of 3-24 steps over accounts {a,b,c}: request(read set, write set; overlapping and duplicate entries allowed), release(a holder), cancel(a waiter), precancelled request, cancel-queued (cancel a queued request before it reaches its wait), grant-race (hold a queued request in front of its wait, release its blockers so that it is granted, cancel it, let it go: both outcomes ready). Each list is executed 6 times on a fresh locker inside a synctest bubble (Go's select is random when both outcomes are ready). After every step: exclusion among Lock calls that have returned, no request left waiting that no holder blocks, cancelled requests return, errors only for cancelled requests; at the end: drain, nobody waits, and a probe for all accounts on an already-cancelled context is granted (only possible when nothing is left locked). Non-trivial = a list with a queued request and a cancellation, or a grant-race; distinct by action list."
+	c.Rule = "action lists of 3-24 steps over accounts {a,b,c}: request(read set, write set; overlapping and duplicate entries allowed), release(a holder), cancel(a waiter), precancelled request, cancel-queued (cancel a queued request before it reaches its wait), grant-race (hold a queued request in front of its wait, release its blockers so that it is granted, cancel it, let it go: both outcomes ready), enqueue-race (hold a request between its failed attempt and its queueing, release its blockers meanwhile, let it queue). Each list is executed 6 times on a fresh locker inside a synctest bubble (Go's select is random when both outcomes are ready). After every step: exclusion among Lock calls that have returned, no request left waiting that no holder blocks, cancelled requests return, errors only for cancelled requests; at the end: drain, nobody waits, and a probe for all accounts on an already-cancelled context is granted (only possible when nothing is left locked). Non-trivial = a list with a queued request and a cancellation, or a grant-race; distinct by action list."
 	c.Assumptions = []string{"state is observed from outside (returned Lock calls); the locker's maps are never read", "the verifhook point lock.queued (between queueing and the select) is the only place where the harness delays the locker"}
 	hookctx.Install()
 	runProp(t, c, func(rt *rapid.T) {
@@ -394,6 +497,9 @@ func TestC15(t *testing.T) {
 		if last.cancels > 0 {
 			labels = append(labels, "cancel")
 		}
+		if last.enqRaces > 0 {
+			labels = append(labels, "enqueue-race")
+		}
 		if last.races > 0 {
 			labels = append(labels, "grant-race")
 			if last.raceWonByCancel > 0 {
@@ -401,7 +507,7 @@ func TestC15(t *testing.T) {
 			}
 		}
 		sort.Strings(labels)
-		c.Case(key.String(), (last.queued > 0 && last.cancels > 0) || last.races > 0, labels, func() any {
+		c.Case(key.String(), (last.queued > 0 && last.cancels > 0) || last.races > 0 || last.enqRaces > 0, labels, func() any {
 			return map[string]any{"actions": actions, "trace": last.log}
 		})
 		if sig != "" && !c.IsKnown(sig) {
